@@ -119,7 +119,8 @@ def detect(d, extra):
     try:
         for p in [prop] + list(extra):
             tier = os.environ.get("SEEDED_TIER", "quick")
-            rc, out, w = sh([os.path.join(V, "check"), p, "--tier", tier], cwd=V, timeout=4 * 3600)
+            rc, out, w = sh([os.path.join(V, "check"), p, "--tier", tier], cwd=V, timeout=4 * 3600,
+                            env=dict(ENV, VERIF_EVIDENCE_DIR=os.path.join(V, "work", "seeded-evidence")))
             viol = [l for l in out.splitlines() if l.startswith("VIOLATION")]
             sigs = []
             for l in viol:
